@@ -371,8 +371,15 @@ void CheckCondition::comparison()
         const Token *expr2 = tok->astOperand2();
         if (!expr1 || !expr2)
             continue;
-        if (expr1->hasKnownIntValue())
+        std::string op = tok->str();
+        if (expr1->hasKnownIntValue()) {
             std::swap(expr1,expr2);
+            // the constant is on the right now: turn the comparator around
+            if (op[0] == '<')
+                op[0] = '>';
+            else if (op[0] == '>')
+                op[0] = '<';
+        }
         if (!expr2->hasKnownIntValue())
             continue;
         if (!compareTokenFlags(expr1, expr2, /*macro*/ true))
@@ -387,30 +394,27 @@ void CheckCondition::comparison()
         for (const MathLib::bigint num1 : numbers) {
             if (num1 < 0)
                 continue;
-            if (Token::Match(tok, "==|!=")) {
+            if (op == "==" || op == "!=") {
                 if ((expr1->str() == "&" && (num1 & num2) != num2) ||
                     (expr1->str() == "|" && (num1 | num2) != num2)) {
-                    const std::string& op(tok->str());
                     comparisonError(expr1, expr1->str(), num1, op, num2, op != "==");
                 }
             } else if (expr1->str() == "&") {
-                const bool or_equal = Token::Match(tok, ">=|<=");
-                const std::string& op(tok->str());
-                if ((Token::Match(tok, ">=|<")) && (num1 < num2)) {
+                const bool or_equal = (op == ">=" || op == "<=");
+                if ((op == ">=" || op == "<") && (num1 < num2)) {
                     comparisonError(expr1, expr1->str(), num1, op, num2, !or_equal);
-                } else if ((Token::Match(tok, "<=|>")) && (num1 <= num2)) {
+                } else if ((op == "<=" || op == ">") && (num1 <= num2)) {
                     comparisonError(expr1, expr1->str(), num1, op, num2, or_equal);
                 }
             } else if (expr1->str() == "|") {
                 if ((expr1->astOperand1()->valueType()) &&
                     (expr1->astOperand1()->valueType()->sign == ValueType::Sign::UNSIGNED)) {
-                    const bool or_equal = Token::Match(tok, ">=|<=");
-                    const std::string& op(tok->str());
-                    if ((Token::Match(tok, ">=|<")) && (num1 >= num2)) {
+                    const bool or_equal = (op == ">=" || op == "<=");
+                    if ((op == ">=" || op == "<") && (num1 >= num2)) {
                         //"(a | 0x07) >= 7U" is always true for unsigned a
                         //"(a | 0x07) < 7U" is always false for unsigned a
                         comparisonError(expr1, expr1->str(), num1, op, num2, or_equal);
-                    } else if ((Token::Match(tok, "<=|>")) && (num1 > num2)) {
+                    } else if ((op == "<=" || op == ">") && (num1 > num2)) {
                         //"(a | 0x08) <= 7U" is always false for unsigned a
                         //"(a | 0x07) > 6U" is always true for unsigned a
                         comparisonError(expr1, expr1->str(), num1, op, num2, !or_equal);
